@@ -28,7 +28,6 @@ pred declaresLengthOfPayload(r *httpprot.Response) := (canon("Content-Length") i
 // response is labelled gzip; a response already labelled gzip is not touched
 func (ra *ResponseAdaptor) compress(resp *httpprot.Response) (res string)
   flag allocates
-  flag frame=unchecked
   requires resp != nil && resp.Response != nil && resp.Response.Header != nil
   modifies resp.payload, resp.stream, entries(resp.Response.Header), rdRem, gzFed, gzClosed, limUnder
   ensures already-labelled-gzip-is-left-alone: old(labelledGzip(resp)) ==> res == "" && resp.stream == old(resp.stream) && resp.payload == old(resp.payload) && (forall k string :: ((k in resp.Response.Header) <==> old(k in resp.Response.Header)) && resp.Response.Header[k] == old(resp.Response.Header[k]))
@@ -42,7 +41,6 @@ func (ra *ResponseAdaptor) compress(resp *httpprot.Response) (res string)
 // declared; streamed - wrapped in the decoder, no length declared; the label is removed; anything else is left alone
 func (ra *ResponseAdaptor) decompress(resp *httpprot.Response) (res string)
   flag allocates
-  flag frame=unchecked
   requires ra != nil && ra.spec != nil && resp != nil && resp.Response != nil && resp.Response.Header != nil
   modifies resp.payload, resp.stream, entries(resp.Response.Header), rdRem, limUnder
   ensures only-gzip-labelled-bodies-are-decoded: (ra.spec.Decompress != "gzip" || headerGet(ref(resp.Response.Header), "Content-Encoding") != "gzip") ==> res == "" && resp.stream == old(resp.stream) && resp.payload == old(resp.payload) && (forall k string :: ((k in resp.Response.Header) <==> old(k in resp.Response.Header)) && resp.Response.Header[k] == old(resp.Response.Header[k]))
